@@ -85,6 +85,14 @@ Lexemes(fam) ==
            L(<<cCOL, 48, cCOM, cGT>>, 5), L(<<cCOL, 50, cCOM, cGT>>, 5), L(<<cCOL, cCOM, 50, cGT>>, 5),
            L(<<cCOL, 48, cCOM, 48, cGT>>, 5), L(<<cCOL, 49, cCOM, 49, cGT>>, 5), L(<<cCOL, 51, cCOM, 50, cGT>>, 5),
            L(<<cCOL, 48, 50, cGT>>, 5), L(<<cCOL, 50, cCOM, 51, cGT>>, 5), L(<<cCOL, cCOM, cGT>>, 5)>>
+    [] fam = "size" ->   \* the invariant size limit (64 KiB): bounds just below, at and above it, products and sums
+         <<P(cA), P(cSEP), P(cSTAR), ROpen, Open, Comma, Close,
+           L(<<cCOL, 54, 53, 53, 51, 53, cGT>>, 5), L(<<cCOL, 54, 53, 53, 51, 54, cGT>>, 5),
+           L(<<cCOL, 51, 50, 55, 54, 56, cGT>>, 5), L(<<cCOL, 50, 53, 54, cGT>>, 5),
+           L(<<cCOL, 54, 53, 53, 51, 54, cCOM, cGT>>, 5), L(<<cCOL, 49, cCOM, 54, 53, 53, 51, 54, cGT>>, 5)>>
+    [] fam = "errs" ->   \* C17: faults next to flags and to 2- and 3-byte characters, inside and outside branches
+         <<FlagI, P(cEAC), P(cKIN), P(cA), P(cSEP), P(cSTAR), ROpen, L(<<cCOL, 48, cGT>>, 5), L(<<cCOL, 50, cCOM, 49, cGT>>, 5),
+           R12, Open, Comma, Close>>
     [] fam = "deep" ->
          <<P(cA), P(cSEP), Open, Comma, Close, ROpen, R12, R01>>
 
